@@ -276,3 +276,30 @@ def load_corpus(prop):
                     s = parse_sexp(ln)
                     out.append({"id": s[1], "kind": s[2], "args": s[3:], "line": ln, "corpus": True})
     return out
+
+def run_impl_robust(cases, batch=300, timeout=60, env=None):
+    """Runs cases in batches with per-case flushing; when the harness hangs or dies, the first
+    case without a result is the culprit and the run resumes after it.
+    Returns (results dict, list of (case, 'hang'|'crash'))."""
+    results, culprits = {}, []
+    env = dict(env or os.environ, UGOH_FLUSH="1")
+    todo = list(cases)
+    while todo:
+        chunk, todo = todo[:batch], todo[batch:]
+        data = "\n".join(c["line"] for c in chunk) + "\n"
+        try:
+            p = subprocess.run([HARNESS + "/ugoh"], input=data, capture_output=True, text=True, timeout=timeout, env=env)
+            out, how = p.stdout, "crash"
+        except subprocess.TimeoutExpired as e:
+            out = e.stdout.decode() if isinstance(e.stdout, bytes) else (e.stdout or "")
+            how = "hang"
+        got = {}
+        for ln in out.split("\n"):
+            i = ln.find(" ")
+            if i > 0: got[ln[:i]] = ln[i+1:]
+        results.update(got)
+        missing = [c for c in chunk if c["id"] not in got]
+        if missing:
+            culprits.append((missing[0], how))
+            todo = missing[1:] + todo
+    return results, culprits
